@@ -15,7 +15,7 @@ from bctmc.tally import Tally
 from bctmc import dtypes
 
 PROPERTY = 'C03'
-RULE = ('on the same families: self-connections on the diagonal change nothing; five structured graphs on 144-200 nodes (bctmc/named.py large_undirected) for distance_bin/breadthdist/reachdist; element types: every routine also on int64 / int32 / uint8 / bool copies of all 3-node digraphs over {0,1} and {0,1,2}, 4-node graphs over {0,1,2}, 5-node binary graphs (same values as for float64; integers must not raise, a boolean matrix may be rejected with TypeError); every free tree on 8 nodes under the scan orders of bctmc/trees.py (951 labelled trees, 0/1); a fixed family of ~100 structured graphs on 7-10 nodes (bctmc/named.py: paths, cycles, stars, wheels, cliques, '
+RULE = ('on the same families: self-connections on the diagonal change nothing; eight structured graphs on 144-300 nodes (incl. K260, star300, path300) (bctmc/named.py large_undirected) for distance_bin/breadthdist/reachdist; element types: every routine also on int64 / int32 / uint8 / bool copies of all 3-node digraphs over {0,1} and {0,1,2}, 4-node graphs over {0,1,2}, 5-node binary graphs (same values as for float64; integers must not raise, a boolean matrix may be rejected with TypeError); every free tree on 8 nodes under the scan orders of bctmc/trees.py (951 labelled trees, 0/1); a fixed family of ~100 structured graphs on 7-10 nodes (bctmc/named.py: paths, cycles, stars, wheels, cliques, '
         'bipartite, ladders, trees, unions with isolated nodes, DAGs, tournaments; binary, lengths {1,2},{1,2,3}, near-tie) and '
         'every labelled digraph / undirected graph of the stated families (binary n<=4 dir, n<=5 und, and the five-node digraphs with <= 8 connections (thorough: all 2^20) for distance_bin/breadthdist/reachdist (reachdist with ensure_binary True and False); '
         'lengths {1,2,3} and the near-tie alphabet {1, 2, 2+2^-20} (1+1 is shorter than 2+2^-20 by less than any common tolerance) on 3-node digraphs and 4-node graphs; weights {1,1/2,1/4} for inv/log; thorough adds '
@@ -47,7 +47,7 @@ FAMILIES = {
 }
 
 
-NAMED = {'named:large_und': 'reach', 'named:bintree8_und': 'bin', 'named:bin_und': 'bin', 'named:bin_dir': 'bin', 'named:len_und': 'len', 'named:len_dir': 'len',
+NAMED = {'named:xlarge_und': 'reach', 'named:bintree8_und': 'bin', 'named:bin_und': 'bin', 'named:bin_dir': 'bin', 'named:len_und': 'len', 'named:len_dir': 'len',
          'named:neartie_und': 'len', 'named:neartie_dir': 'len'}
 
 
